@@ -603,3 +603,57 @@ CHECK_DEADLOCK FALSE
                         "after the first error the rest of a stream is unconstrained; for corrupted inputs only the elements that end before the damaged byte, no panic and bounded time are asserted",
                         "which children land in which field is C01's business; prefixed addressing attributes (foo:to) are not generated"]
 FAMILY_TRACE["c02"] = ("TraceStreamParser", "Trace_StreamParser.cfg")
+
+
+# ------------------------------------------------------------------ C01
+def codec_cfg(kinds, attrs, errs, mext, pext, iqpl, sm, tcs, maxexts):
+    return """SPECIFICATION Spec
+CONSTANTS
+  Kinds = %s
+  AttrSets <- %s
+  ErrKinds = %s
+  MsgExts <- %s
+  PresExts = %s
+  IQPayloads <- %s
+  SMKinds = %s
+  TextClasses <- %s
+  MaxExts = %d
+  Emit = TRUE
+INVARIANTS C01_RoundTripShape C01_ShapeIndependentOfText EmitInv
+CHECK_DEADLOCK FALSE
+""" % (kinds, attrs, errs, mext, pext, iqpl, sm, tcs, maxexts)
+
+
+@check("C01")
+def c01(ctx):
+    q = ctx.tier == "quick"
+    def full():
+        allerr = S("none", "full", "notext", "nocode")
+        sm = S("enable", "enabled", "r", "a", "resumed", "resume", "failed")
+        gens = [
+            # every subset of the five addressing attributes x error shapes x every text class, no extensions
+            codec_cfg(S("message", "presence", "iq", "sm", "auth", "handshake"), "AllAttrSets", allerr, "MsgExtsSome", S("muc"), "IQPl", sm, "TCAll", 0),
+            # every single extension / payload, every text class
+            codec_cfg(S("message", "presence", "iq"), "FewAttrSets", S("none", "full"), "MsgExtsAll", S("muc"), "IQPl", "{}", "TCAll" if not q else "TCSome", 1),
+            # every ordered pair of distinct message extensions (thorough: triples over a subset)
+            codec_cfg(S("message"), "FewAttrSets", S("none"), "MsgExtsAll", "{}", "NoneSet", "{}", "TCSome" if not q else "TCMixed", 2),
+        ]
+        if not q:
+            gens.append(codec_cfg(S("message"), "FewAttrSets", S("none"), "MsgExtsSome", "{}", "NoneSet", "{}", "TCMixed", 3))
+        scen, seen = [], set()
+        for g in gens:
+            for b in blines(vlib.tlc_mc(ctx, "MC_Codec", "MC_Codec.cfg", cfgtext=g, timeout=900)):
+                k = json.dumps(b, sort_keys=True)
+                if k not in seen:
+                    seen.add(k)
+                    scen.append(b)
+        ctx.exhaustive = True
+        ctx.notes["bounds"] = "message/presence/iq: every subset of {type,id,from,to,lang} x {no error, full error, error without text, error without legacy code} x 10 text classes; every registered message extension (16 of the 21; PubSubEvent, HTML, Delegation not populated), the MUC presence extension, IQ payloads {version, disco#info, disco#items, bind, roster, generic node tree}; every ordered pair of distinct message extensions; the 7 stream-management elements, <auth/>, <handshake/>; %d concretisations each" % (2 if q else 6)
+        out, nev, _ = vlib.run_driver(ctx, "c01", scen=scen, args=["-variants", "2" if q else "6"], timeout=2400)
+        ctx.verdicts += vlib.tlc_trace(ctx, "TraceCodec", "Trace_Codec.cfg", out, nev, timeout=1800)
+    replay_or(ctx, "c01", "TraceCodec", "Trace_Codec.cfg", full)
+    ctx.assumptions += ["equality of the parsed value with the original is the equality of the multisets of (field path, leaf value) extracted by reflection, zero values omitted (nil vs empty, pointer vs value, XMLName filled in by the parser are thereby normalised)",
+                        "byte identity of the second serialisation is judged modulo the default-namespace declaration the parser records on the root element",
+                        "payload internals are populated by reflection over the struct tags; not populated: PubSubEvent, PubSubGeneric, PubSubOwner, Command, ControlSet, HTML, Delegation (interface-typed or innerxml fields)",
+                        "encoding/xml itself (escaping rules, attribute quoting) is trusted as the reference for well-formedness: the harness re-tokenises the output with it"]
+FAMILY_TRACE["c01"] = ("TraceCodec", "Trace_Codec.cfg")
